@@ -575,7 +575,15 @@ def mon_seq_cst(case, lines):
     return None
 
 
-MONITORS = {'fault': mon_fault, 'snapshot_stable': mon_snapshot_stable, 'snapshot_committed': mon_snapshot_committed,
+
+def mon_new_reader_delays_writer(case, lines):
+    """C14: a reader (lock_shared, or the copy phase of lock()) that starts while a committing writer already
+    drains counter k must register in the other counter"""
+    import lrmon
+    return lrmon.new_reader_delays_writer(lines, SHARED + (LOCK,), RELEASES)
+
+
+MONITORS = {'new_reader_delays_writer': mon_new_reader_delays_writer, 'fault': mon_fault, 'snapshot_stable': mon_snapshot_stable, 'snapshot_committed': mon_snapshot_committed,
             'base_latest': mon_base_latest, 'writers_serial': mon_writers_serial, 'publish_atomic': mon_publish_atomic,
             'no_lost_update': mon_no_lost_update, 'ledger': mon_ledger, 'read_no_mutex': mon_read_no_mutex,
             'progress': mon_progress, 'cancel': mon_cancel, 'exn_lock': mon_exn_lock, 'seq_cst': mon_seq_cst}
